@@ -11,6 +11,8 @@ shutil.copy(os.path.join(src, 'patch.diff'), os.path.join(dst, 'patch.diff'))
 demo = [f for f in os.listdir(src) if f.endswith('.rs')][0]
 shutil.copy(os.path.join(src, demo), os.path.join(dst, 'seed_demo.rs'))
 readme = open(os.path.join(src, 'README.md')).read() if os.path.exists(os.path.join(src, 'README.md')) else ''
+m = re.search(r'^#+\s*What is needed[^\n]*\n(.*?)(?=^#+\s|\Z)', readme, re.S | re.M)
+needs = (m.group(1).strip()[:1500] if m else None)
 r = subprocess.run([os.path.join(V, 'tools', 'seedtest.sh'), os.path.join(dst, 'patch.diff')], capture_output=True, text=True)
 verdict = {}
 for l in r.stdout.splitlines():
@@ -21,7 +23,7 @@ for l in r.stdout.splitlines():
 meta = {
     'id': sid, 'breaks_property': prop,
     'written_by': 'independent sub-agent that saw only the text of the property and its own scratch worktree',
-    'needs_to_manifest': None,
+    'needs_to_manifest': needs,
     'agent_readme': readme[:6000],
     'confirmed_by_me': {'in': 'fresh scratch worktree of /repo HEAD (tools/confirm_seed.sh)', 'result': confirm},
     'commands': ['git apply patch.diff', 'cargo build --offline --features parallel', 'cargo nextest run --workspace --offline (75 pass)',
